@@ -166,6 +166,55 @@ theorem pause_unpause_roundtrip (cfg : Cfg) (c : Core) (later : List Int)
        | _ => later[i]?) :=
   overlay_capture_get cfg.safes c.outs later hlen i
 
+/-! ## Errors while paused; Unpause with no pause in effect -/
+
+/-- **An error while already paused does not disturb the snapshot**: `set_error_state` on a paused engine
+    leaves the stored values, the outputs and the record of the most recent Pause as they are (with or without
+    the C08 repair that lets an error pause capture). -/
+theorem error_while_paused_keeps_snapshot (cfg : Cfg) (c : Core) (hp : c.paused = true) :
+    (c.setError cfg).prev = c.prev ∧ (c.setError cfg).outs = c.outs ∧
+    (c.setError cfg).lastCap = c.lastCap ∧ (c.setError cfg).capRun = c.capRun ∧
+    (c.setError cfg).capLive = c.capLive ∧ (c.setError cfg).paused = true := by
+  unfold Core.setError
+  simp [hp]
+
+/-- nothing is stored while the engine is not paused -/
+structure NoSnap (a : A) : Prop where
+  ok : a.core.paused = false → a.core.prev = none
+
+theorem noSnap_step (cfg : Cfg) (hp : cfg.prevFix = true) (pm : Perm) (a : A) (act : Act) (h : NoSnap a)
+    (_hen : act.enabled cfg pm a) : NoSnap (act.apply cfg a) := by
+  obtain ⟨h⟩ := h
+  cases act
+  case pause => exact ⟨fun hq => by simp [Act.apply, Core.pause] at hq⟩
+  case unpause => exact ⟨fun _ => rfl⟩
+  case startRun => exact ⟨fun _ => by simp [Act.apply, Core.startRun, Core.clearPrev, hp]⟩
+  case restartMid => exact ⟨fun _ => by simp [Act.apply, Core.restartMid, Core.clearPrev, hp]⟩
+  case restartFinish => exact ⟨fun _ => by simp [Act.apply, Core.restartFinish, Core.clearPrev, hp]⟩
+  case stopFinish =>
+    refine ⟨fun _ => ?_⟩
+    simp only [Act.apply, Core.stopFinish, Core.writeImage, Core.clearPrev, hp]
+    split <;> rfl
+  case error =>
+    refine ⟨fun hq => ?_⟩
+    simp only [Act.apply, Core.setError] at hq
+    split at hq <;> simp at hq
+  case write => refine ⟨?_⟩; simp only [Act.apply, Core.writeImage]; split <;> exact h
+  case ev e =>
+    cases e <;> refine ⟨?_⟩ <;> simp only [Act.apply, Core.event] <;> first | exact h | (split <;> exact h)
+  case clock inc => refine ⟨?_⟩; simp only [Act.apply, Core.clock]; split <;> exact h
+  all_goals exact ⟨h⟩
+
+/-- **An Unpause with no pause in effect changes no output** — an `Unpause` instruction of the method while
+    not paused, or the timer of a timed Pause that the user ended early: in every state the engine can be in
+    while not paused nothing is stored, so the Unpause body leaves the outputs exactly as they are. -/
+theorem unpause_without_pause_changes_nothing (cfg : Cfg) (hp : cfg.prevFix = true) (outs : List Int)
+    (a : A) (h : Reach cfg ⟨true, true, true⟩ (abs (init cfg outs)) a) (hnp : a.core.paused = false) :
+    a.core.prev = none ∧ a.core.unpause.outs = a.core.outs := by
+  have hn : NoSnap a := h.inv (fun b act => noSnap_step cfg hp _ b act)
+    ⟨fun _ => by unfold init; split <;> rfl⟩
+  exact ⟨hn.ok hnp, (unpause_applies a.core).2.2.1 (hn.ok hnp)⟩
+
 /-! ## The code as it is: witness; non-vacuity -/
 
 open OPM.C06 (safes3 tk)
@@ -206,6 +255,20 @@ example :
     let s' := run cfg s [.user .unpause, tk]
     s.core.prev = some [some 33, some 1, none] ∧ s.core.outs = [2, 1, 71] ∧
       s'.core.outs = [33, 1, 71] ∧ s'.core.prev = none := by
+  decide +kernel
+
+/-- Non-vacuity: a timed method Pause ended early by the user; the outputs are changed; when the timer runs
+    out the resident Pause calls Unpause again — nothing is re-applied. And an error while paused leaves the
+    snapshot alone. -/
+example :
+    let cfg := repaired8 safes3
+    let tkP : Op := .tick { adv := 8, inc := 8, items := [.cmd .pause (.dur 24)] }
+    let s := run cfg (init cfg [5, 7, 9])
+      [.user .start, tk, .setOut 0 33, tkP, .user .unpause, tk, .setOut 0 44, tk, tk, tk, tk]
+    let p := run cfg (init cfg [5, 7, 9]) [.user .start, tk, .setOut 0 33, .user .pause, tk, .errApi, tk]
+    s.core.paused = false ∧ s.core.outs = [44, 1, 9] ∧ s.core.prev = none ∧
+      p.core.paused = true ∧ p.core.prev = some [some 33, some 1, none] ∧
+      (run cfg p [.user .unpause, tk]).core.outs = [33, 1, 9] := by
   decide +kernel
 
 end OPM.C09
